@@ -8,7 +8,7 @@
 (* entry point the partitioned scalars (when logged) are decoded the way   *)
 (* the bucket accumulation reads them and must reconstruct each scalar.    *)
 (***************************************************************************)
-EXTENDS Real, EdwardsImpl, TraceLib
+EXTENDS Real, EdwardsImpl, MSMImpl, TraceLib
 VARIABLES l, bad, cnt
 vars == <<l, bad, cnt>>
 
@@ -34,6 +34,16 @@ MsmDevs(l0, e) ==
        IN  (IF ~IValid(e.out) THEN <<Dev(l0, "C09", <<"result is not a valid element", e.kind, e.n, e.tasks, e.mont>>, sig("invalid"))>>
             ELSE One(EEq(IAff(e.out), want), l0, "C09", <<"result differs from sum s_i P_i", e.kind, e.n, e.tasks, e.mont, e.small, e.pcls, e.scls, IF Has(e, "c") THEN e.c ELSE 0>>, sig("value"))) \o
            (IF Has(e, "inputs_unchanged") THEN One(e.inputs_unchanged, l0, "C13", "MultiExp modified its input slices", sig("inputs")) ELSE <<>>) \o
+           \* the decision MultiExp reported through the hook against the implementation-shaped chooser model (MSMImpl!SplitLoop,
+           \* the model MC_MsmChooser checks for every n <= 8192): a mismatch means the model is stale, not that the property fails
+           (IF Has(e, "decision")
+            THEN LET r == SplitLoop(256, IF e.decision.tasks <= 0 THEN e.numcpu ELSE e.decision.tasks, 1, e.decision.n)
+                     sm == Cardinality({i \in 1 .. Len(e.scalars) : e.scalars[i] # N0 /\ NLt(e.scalars[i], NOfInt(MP2(r.C)))})
+                 IN  One(e.decision.c = r.C /\ e.decision.splits = r.splits /\ e.decision.pts = r.pts, l0, "DRIFT",
+                         <<"window/split decision differs from the chooser model", e.decision, r>>, sig("decision")) \o
+                     One(e.decision.small = sm /\ e.decision.splitfirst = (e.decision.n > 0 /\ 10 * sm >= e.decision.n), l0, "DRIFT",
+                         <<"small-scalar count / first-chunk split differs from the model", e.decision, sm>>, sig("smallvalues"))
+            ELSE <<>>) \o
            (IF Has(e, "partition") THEN One(PartitionOK(e), l0, "C09", <<"partitioned scalars do not decode to the scalars", e.c>>, sig("partition")) ELSE <<>>)
 
 Init == l = 1 /\ bad = <<>> /\ cnt = << >>
